@@ -90,7 +90,7 @@ pub async fn start(config_path: &str, real_signals: bool) -> Result<Pooler, Stri
                             admin_only = true;
                             let _ = shutdown_tx.send(());
                             let exit_tx = exit_tx.clone();
-                            let _ = drain_tx.send(0).await;
+                            let _ = drain_tx.try_send(0);
                             let shutdown_timeout = config.general.shutdown_timeout;
                             tokio::task::spawn(async move {
                                 let mut interval = tokio::time::interval(tokio::time::Duration::from_millis(shutdown_timeout));
@@ -147,7 +147,7 @@ pub async fn start(config_path: &str, real_signals: bool) -> Result<Pooler, Stri
                     total_clients += client_ping;
                     total.store(total_clients as i64, Ordering::SeqCst);
                     if total_clients == 0 && admin_only {
-                        let _ = exit_tx.send(()).await;
+                        let _ = exit_tx.try_send(());
                     }
                 }
             }
